@@ -6,6 +6,7 @@ import (
 	"go/constant"
 	"go/token"
 	"go/types"
+	"os"
 	"sort"
 	"strings"
 
@@ -1710,4 +1711,261 @@ func constStringsReaching(v ssa.Value, within map[*ssa.Function]bool) (map[strin
 	}
 	walk(v, token.NoPos, 0)
 	return out, ok
+}
+
+// stepTable is the "sequence of steps kept as data" idiom: a slice literal of
+// functions (or of structs with one function-typed field) built in f, walked
+// by one range loop that calls the row's function and leaves the function
+// on its first error. When Verified, running the loop is the same as
+// writing `if err := Fns[0](); err != nil { return ... }; if err :=
+// Fns[1]() ...` in order, and the code after the loop is reached only after
+// every step returned nil.
+type stepTable struct {
+	Fns      []*ssa.Function     // the rows' functions, in row order
+	Call     ssa.CallInstruction // the dynamic call in the loop
+	Header   *ssa.BasicBlock
+	ExitEdge func(g Guard) bool // the edge leaving the loop because the rows are exhausted
+}
+
+func stepDbg(format string, args ...interface{}) {
+	if os.Getenv("CLUSTERLINT_DEBUG_STEPS") != "" {
+		fmt.Fprintf(os.Stderr, "steps: "+format+"\n", args...)
+	}
+}
+
+func stepTablesOf(f *ssa.Function) []*stepTable {
+	var out []*stepTable
+	for _, ci := range callsIn(f) {
+		cc := ci.Common()
+		if cc.IsInvoke() || cc.StaticCallee() != nil {
+			continue
+		}
+		if _, isBuiltin := cc.Value.(*ssa.Builtin); isBuiltin {
+			continue
+		}
+		call, ok := ci.(*ssa.Call)
+		if !ok {
+			continue
+		}
+		// the called value: a row (or a row's field) of a slice indexed by
+		// the loop variable, read in place or through the loop's copy of
+		// the row (`for _, step := range steps { step.wait() }`)
+		var ia *ssa.IndexAddr
+		fieldIdx := -1
+		rowAddr := func(x ssa.Value) *ssa.IndexAddr {
+			switch a := x.(type) {
+			case *ssa.IndexAddr:
+				return a
+			case *ssa.Alloc: // the copy: one store of a loaded row
+				var found *ssa.IndexAddr
+				n := 0
+				if a.Referrers() != nil {
+					for _, ref := range *a.Referrers() {
+						if st, ok := ref.(*ssa.Store); ok && st.Addr == ssa.Value(a) {
+							n++
+							if u, ok := st.Val.(*ssa.UnOp); ok && u.Op == token.MUL {
+								found, _ = u.X.(*ssa.IndexAddr)
+							}
+						}
+					}
+				}
+				if n == 1 {
+					return found
+				}
+			}
+			return nil
+		}
+		switch v := cc.Value.(type) {
+		case *ssa.Field: // load of the whole row, then the field
+			if u, ok := v.X.(*ssa.UnOp); ok && u.Op == token.MUL {
+				ia = rowAddr(u.X)
+				fieldIdx = v.Field
+			}
+		case *ssa.UnOp:
+			if v.Op == token.MUL {
+				switch a := v.X.(type) {
+				case *ssa.IndexAddr:
+					ia = a
+				case *ssa.FieldAddr:
+					ia = rowAddr(a.X)
+					fieldIdx = a.Field
+				}
+			}
+		}
+		if ia == nil {
+			stepDbg("%s: no row address for %s", f.Name(), cc.Value)
+			continue
+		}
+		sl, ok := ia.X.(*ssa.Slice)
+		if !ok || sl.Low != nil || sl.High != nil {
+			stepDbg("%s: not a full slice: %v", f.Name(), ia.X)
+			continue
+		}
+		arr, ok := sl.X.(*ssa.Alloc)
+		if !ok || arr.Referrers() == nil {
+			stepDbg("%s: slice of non-alloc", f.Name())
+			continue
+		}
+		// rows: stores of function values at constant indices; nothing else
+		// writes the array
+		rows := map[int64]*ssa.Function{}
+		clean := true
+		for _, ref := range *arr.Referrers() {
+			switch x := ref.(type) {
+			case *ssa.Slice:
+			case *ssa.IndexAddr:
+				k, isK := constInt(x.Index)
+				if !isK || x.Referrers() == nil {
+					clean = false
+					continue
+				}
+				for _, r2 := range *x.Referrers() {
+					switch y := r2.(type) {
+					case *ssa.Store:
+						if fieldIdx == -1 {
+							if fn := fnOfValue(y.Val); fn != nil {
+								rows[k] = fn
+							} else {
+								clean = false
+							}
+							continue
+						}
+						// the row stored whole, from a literal built in a local
+						fn := (*ssa.Function)(nil)
+						if u, ok := y.Val.(*ssa.UnOp); ok && u.Op == token.MUL {
+							if lit, ok := u.X.(*ssa.Alloc); ok && lit.Referrers() != nil {
+								for _, r3 := range *lit.Referrers() {
+									if fa, ok := r3.(*ssa.FieldAddr); ok && fa.Field == fieldIdx && fa.Referrers() != nil {
+										for _, r4 := range *fa.Referrers() {
+											if st, ok := r4.(*ssa.Store); ok {
+												fn = fnOfValue(st.Val)
+											}
+										}
+									}
+								}
+							}
+						}
+						if fn != nil {
+							rows[k] = fn
+						} else {
+							clean = false
+						}
+					case *ssa.FieldAddr:
+						if y.Field != fieldIdx || y.Referrers() == nil {
+							continue
+						}
+						for _, r3 := range *y.Referrers() {
+							if st, ok := r3.(*ssa.Store); ok {
+								if fn := fnOfValue(st.Val); fn != nil {
+									rows[k] = fn
+								} else {
+									clean = false
+								}
+							}
+						}
+					}
+				}
+			default:
+				clean = false
+			}
+		}
+		if !clean || len(rows) == 0 {
+			stepDbg("%s: rows clean=%v n=%d", f.Name(), clean, len(rows))
+			continue
+		}
+		var fns []*ssa.Function
+		for k := int64(0); k < int64(len(rows)); k++ {
+			fn, ok := rows[k]
+			if !ok {
+				fns = nil
+				break
+			}
+			fns = append(fns, fn)
+		}
+		if fns == nil {
+			continue
+		}
+		// the index is the range variable: phi, or phi+1 in go/ssa's rotated
+		// range loops, tested against the length on the way in
+		var phi *ssa.Phi
+		switch x := ia.Index.(type) {
+		case *ssa.Phi:
+			phi = x
+		case *ssa.BinOp:
+			if k, isK := constInt(x.Y); x.Op == token.ADD && isK && k == 1 {
+				phi, _ = x.X.(*ssa.Phi)
+			}
+		}
+		if phi == nil {
+			stepDbg("%s: index not a range variable", f.Name())
+			continue
+		}
+		hdr := phi.Block()
+		isRangeCond := func(g Guard) bool {
+			b, ok := g.Cond.(*ssa.BinOp)
+			if !ok || b.Op != token.LSS || b.X != ia.Index {
+				return false
+			}
+			lc, _ := originCallLocal(b.Y)
+			return lc != nil && callName(lc.Common()) == "builtin.len"
+		}
+		// called on every iteration: the only test between the header and
+		// the call is the range condition
+		okUncond := true
+		for _, g := range guardsOf(call.Block()) {
+			if g.Derived || g.If == nil || !inNaturalLoop(g.If.Block(), hdr) {
+				continue
+			}
+			if !(isRangeCond(g) && g.Branch) {
+				okUncond = false
+			}
+		}
+		// the next iteration is reached only after the call returned nil
+		errIdx := call.Common().Signature().Results().Len() - 1
+		if errIdx < 0 || !types.Identical(call.Common().Signature().Results().At(errIdx).Type(), types.Universe.Lookup("error").Type()) {
+			continue
+		}
+		isOK := func(g Guard) bool {
+			return gNil(g, false, func(v ssa.Value) bool { cc2, idx := originCallLocal(v); return cc2 == call && idx == errIdx })
+		}
+		okAbort := true
+		seen := map[*ssa.BasicBlock]bool{}
+		var walk func(b *ssa.BasicBlock)
+		walk = func(b *ssa.BasicBlock) {
+			if seen[b] || !okAbort {
+				return
+			}
+			seen[b] = true
+			iff, isIf := b.Instrs[len(b.Instrs)-1].(*ssa.If)
+			for i, sc := range b.Succs {
+				if isIf && len(b.Succs) == 2 {
+					cond, br := iff.Cond, i == 0
+					for {
+						if u, ok := cond.(*ssa.UnOp); ok && u.Op == token.NOT {
+							cond, br = u.X, !br
+							continue
+						}
+						break
+					}
+					if isOK(Guard{Cond: cond, Branch: br, If: iff}) {
+						continue
+					}
+				}
+				if sc == hdr {
+					okAbort = false
+					return
+				}
+				if inNaturalLoop(sc, hdr) {
+					walk(sc)
+				}
+			}
+		}
+		walk(call.Block())
+		if !okUncond || !okAbort {
+			stepDbg("%s: uncond=%v abort=%v", f.Name(), okUncond, okAbort)
+			continue
+		}
+		out = append(out, &stepTable{Fns: fns, Call: call, Header: hdr, ExitEdge: func(g Guard) bool { return isRangeCond(g) && !g.Branch }})
+	}
+	return out
 }
